@@ -12,5 +12,6 @@ CONSTANTS
   GenSizes = {1, 7, 8, 9, 63, 64, 65, 127, 128, 129, 130, 200, 511, 512, 513, 1000, 1023, 1024, 1025, 1536, 2049}
   GenModes = {"labels", "bits", "labelsm"}
   GenLen = 1
+  RealChunkRows = 512
 CONSTRAINT Emit
 CHECK_DEADLOCK FALSE
